@@ -8,6 +8,7 @@ from harness.gen import scenarios_a
 
 ID = "C04"
 PROP_FILE = "C04.v"
+SOFT_PINS = "core"
 TRANSLATORS = ["unicode_tables", "tables"]
 RULE = ("half grammar-generated histories (10-40 ops: inbound lines of every handler kind valid and invalid, known/unknown "
         "nodes and children, set_child_value / update_fw calls, pumps), half directed ones (second presentation of a known "
